@@ -10,7 +10,15 @@ inputs (i)  stubs emitted by io.generate_pyi for programs: harness/c05_progs.py 
             drawn from ProgGen.tla (as C01/C06 obtain them), the programs embedded in pytype's
             own tests (progs_d.upstream_snippets);
        (ii) StubGen behaviours (tlc -simulate, and exhaustive families at tiny bounds) turned
-            into real pytd ASTs by stubgen_terms.stub_ast.
+            into real pytd ASTs by stubgen_terms.stub_ast;
+       (iii) special method names: StubGen's NextD draws the function name from the alphabet of
+            names the reader / printer / inferencer treat by NAME (__new__, __init_subclass__,
+            __class_getitem__, __init__, __call__, __getattr__, __eq__, ...) crossed with the kind
+            (plain / @staticmethod / @classmethod), flags, overloads and the first parameter
+            (absent / self / cls / other, bare or annotated with the class) - families dunder-*
+            (exhaustive) and a simulation; c05_progs.DUNDER defines the same names the way users
+            write them.  The spec pins the name convention and states, per declaration, the kind
+            the printed text denotes (rk); clause orig compares the re-read declarations with that.
 per stub (harness/stublife.py, real code only): pytd_utils.Print -> parser.parse_string (no
 module name) -> VerifyVisitor -> Print -> parse_string -> canonical_pyi -> loader resolution
 [-> comparison with the original declarations for StubGen stubs]; every step is one event with
